@@ -7,6 +7,7 @@ From Pandora Require Import Model.Mirror Proofs.MirrorP Gen.Callbacks.
 From Coq Require Import ZArith QArith.
 From Pandora Require Import Model.MatchingCost Model.Refine Model.CrossCheck Model.Interp Spec.CrossCheck
      Model.Criteria Model.PipelineRun Proofs.PipelineRunP Gen.Flags Gen.RefineConsts Gen.Constants.
+From Pandora Require Import Model.Multiscale Model.ScaleArith Gen.ScaleArith Proofs.ScaleArithGenP.
 Import ListNotations.
 
 (* Per-run obligations on the regenerated callbacks (finite, complete computations):
@@ -232,6 +233,125 @@ Example C08_pipeline_example :
   st_rd (run_pipeline ex_E ex_g [SMc Sad 1 1; SDisp None; SFilter 3]) = None.
 Proof. vm_compute. repeat split. Qed.
 
+(* ====================================================================================================
+   run_prepare on the text of the code.  Gen/ScaleArith.v is regenerated at every run from
+   pandora/state_machine.py run_prepare (both branches: arithmetic of the intervals, and where the images,
+   pyramids and output datasets come from) by translator/gen_scale_arith.py (ast, fail closed).  The
+   hand-written prepare_single / prepare_multi of Proofs/MirrorP.v -- the initial states of the mirror theorems
+   above -- are proved to BE the generated preparation (re-proved at every run), their two hypotheses about the
+   interval arithmetic are proved for the generated arithmetic, and the mirror theorems are restated for runs
+   that start from the generated preparation.  Values: rationals (a bound at one pixel; every operation of
+   run_prepare on the arrays is pixel-wise) and image-like values of an arbitrary type A. *)
+
+(* where the non-numeric attributes come from: left/right image (or first level of its pyramid, the rest staying
+   in the pyramid attribute), empty output datasets, right_disp_map from the configuration; the table is symmetric *)
+Theorem C08_gen_prepare_wiring :
+  wiring_same run_prepare_multi_wiring model_multi_wiring = true /\
+  wiring_same run_prepare_mono_wiring model_mono_wiring = true /\
+  wiring_mirrored run_prepare_multi_wiring = true /\ wiring_mirrored run_prepare_mono_wiring = true.
+Proof. exact gen_wiring_is_model. Qed.
+
+(* single scale: the interval as given, the right interval as given in the input or (-max, -min) *)
+Theorem C08_gen_prepare_mono_is_model : forall sn ssf lmin lmax rd,
+  run_prepare_mono sn ssf lmin lmax rd = model_prepare_mono lmin lmax rd /\
+  (rd = None -> (po_right_disp_min (run_prepare_mono sn ssf lmin lmax rd),
+                 po_right_disp_max (run_prepare_mono sn ssf lmin lmax rd)) = ((- lmax)%Q, (- lmin)%Q)) /\
+  (forall r, rd = Some r -> (po_right_disp_min (run_prepare_mono sn ssf lmin lmax rd),
+                             po_right_disp_max (run_prepare_mono sn ssf lmin lmax rd)) = r).
+Proof.
+  intros sn ssf lmin lmax rd. split; [exact (gen_prepare_mono_is_model sn ssf lmin lmax rd)|].
+  split; [intros ->; reflexivity | intros [a b] ->; reflexivity].
+Qed.
+
+(* several scales: the right interval and the right user interval are the negated, swapped left ones *)
+Theorem C08_gen_right_interval_negated : forall pn psf sn ssf lmin lmax,
+  let o := run_prepare_multi pn psf sn ssf lmin lmax in
+  (pm_right_disp_min o, pm_right_disp_max o) = ((- pm_disp_max o)%Q, (- pm_disp_min o)%Q) /\
+  (pm_dmin_user_right o, pm_dmax_user_right o) = ((- pm_dmax_user o)%Q, (- pm_dmin_user o)%Q).
+Proof. intros. split; reflexivity. Qed.
+
+Section C08gen.
+  Variable A : Type.
+  Variables (pyrA firstA restA : A -> A) (emptyA cfgA noneA : A).
+  Let V := gv A.
+  Let st_multi := gen_multi_state A pyrA firstA restA emptyA cfgA noneA.
+  Let st_mono := gen_mono_state A pyrA firstA restA emptyA cfgA noneA.
+
+  (* the initial states of C08_mirror_single_scale / C08_mirror_multi_scale are the generated preparation *)
+  Theorem C08_gen_prepare_single_is_model : forall sn ssf L R lmin lmax x,
+    st_mono sn ssf L R lmin lmax None x
+    = prepare_single V (gneg A) (GA A emptyA) (GA A L) (GA A R) (GQ A lmin) (GQ A lmax) x.
+  Proof. exact (gen_mono_state_is_model A pyrA firstA restA emptyA cfgA noneA). Qed.
+
+  Theorem C08_gen_prepare_multi_is_model : forall n sf L R lmin lmax x,
+    st_multi n sf n sf L R lmin lmax x
+    = prepare_multi V (gneg A) (gdv A (sf ^ n)) (gpyr A pyrA) (gfirst A firstA) (grest A restA) (GA A emptyA)
+                    (GA A L) (GA A R) (GQ A lmin) (GQ A lmax) x.
+  Proof. exact (gen_multi_state_is_model A pyrA firstA restA emptyA cfgA noneA). Qed.
+
+  (* a right interval given in the input only changes the two right bounds *)
+  Theorem C08_gen_prepare_single_given_right : forall sn ssf L R lmin lmax rmin rmax,
+    st_mono sn ssf L R lmin lmax (Some (rmin, rmax)) Rmin = GQ A rmin /\
+    st_mono sn ssf L R lmin lmax (Some (rmin, rmax)) Rmax = GQ A rmax /\
+    forall x, x <> Rmin -> x <> Rmax ->
+              st_mono sn ssf L R lmin lmax (Some (rmin, rmax)) x = st_mono sn ssf L R lmin lmax None x.
+  Proof. exact (gen_mono_given_right A pyrA firstA restA emptyA cfgA noneA). Qed.
+
+  (* neg_invol / dv_neg of Section C08 for the generated arithmetic (unary minus; / scale_factor ** num_scales) *)
+  Theorem C08_gen_interval_hypotheses : forall d v,
+    gneg A (gneg A v) = v /\ gdv A d (gneg A v) = gneg A (gdv A d v).
+  Proof. intros d v. split; [exact (gneg_invol A v) | exact (gdv_gneg A d v)]. Qed.
+
+  (* the mirrored problem (images exchanged, interval negated and swapped) is prepared into the exchanged state *)
+  Theorem C08_gen_prepare_single_mirror : forall sn ssf L R lmin lmax x,
+    st_mono sn ssf R L (- lmax)%Q (- lmin)%Q None x = st_mono sn ssf L R lmin lmax None (swap_slot x).
+  Proof. exact (gen_prepare_mono_mirror A pyrA firstA restA emptyA cfgA noneA). Qed.
+
+  Theorem C08_gen_prepare_multi_mirror : forall n sf L R lmin lmax x,
+    st_multi n sf n sf R L (- lmax)%Q (- lmin)%Q x = st_multi n sf n sf L R lmin lmax (swap_slot x).
+  Proof. exact (gen_prepare_multi_mirror A pyrA firstA restA emptyA cfgA noneA). Qed.
+
+  (* the mirror theorems for runs of the regenerated callbacks from the regenerated preparation: any step
+     functions F (with the two facts about cross-checking / interpolation), any callback sequence *)
+  Variable F : fname -> list V -> list V.
+  Variable D : Type.
+  Variable disp_of : V -> D.
+  Variables (chk : V -> V -> V) (itp : V -> V).
+  Hypothesis F_chk : forall a b, F FCrossCheck [a; b] = [chk a b].
+  Hypothesis F_itp : forall a, F FInterpolate [a] = [itp a].
+  Hypothesis chk_other : forall a b b', disp_of b = disp_of b' -> chk a b = chk a b'.
+  Hypothesis chk_disp : forall a b, disp_of (chk a b) = disp_of a.
+
+  Theorem C08_gen_mirror_single_scale : forall pl sn ssf L R lmin lmax, no_seg pl ->
+    let s  := exec_run V F gen_callback true pl (st_mono sn ssf L R lmin lmax None) in
+    let s' := exec_run V F gen_callback true pl (st_mono sn ssf R L (- lmax)%Q (- lmin)%Q None) in
+    forall x, s' x = s (swap_slot x).
+  Proof.
+    exact (gen_mirror_single A pyrA firstA restA emptyA cfgA noneA F D disp_of chk itp F_chk F_itp chk_other chk_disp
+                             gen_callback C08_callbacks_mirrored).
+  Qed.
+
+  Theorem C08_gen_mirror_multi_scale : forall pl n sf L R lmin lmax, no_seg pl ->
+    let s  := exec_run V F gen_callback true pl (st_multi n sf n sf L R lmin lmax) in
+    let s' := exec_run V F gen_callback true pl (st_multi n sf n sf R L (- lmax)%Q (- lmin)%Q) in
+    forall x, s' x = s (swap_slot x).
+  Proof.
+    exact (gen_mirror_multi A pyrA firstA restA emptyA cfgA noneA F D disp_of chk itp F_chk F_itp chk_other chk_disp
+                            gen_callback C08_callbacks_mirrored).
+  Qed.
+End C08gen.
+
+(* non-vacuity: the generated preparation of disp [-7, 4], scale_factor 3, 2 scales on images named 1 and 2
+   (pyramid / first level / rest as tagging functions): the interval / 9, the right one negated and swapped *)
+Example C08_gen_example :
+  let st := gen_multi_state Z (fun a => 10 * a)%Z (fun a => a + 1)%Z (fun a => a + 2)%Z 0%Z 7%Z 8%Z 2 3 2 3 1%Z 2%Z (-7 # 1) (4 # 1) in
+  st Limg = GA Z 11%Z /\ st Rimg = GA Z 21%Z /\ st Lpyr = GA Z 12%Z /\ st Rpyr = GA Z 22%Z /\ st Ldisp = GA Z 0%Z /\
+  match st Lmin, st Rmin, st Rumax with
+  | GQ _ a, GQ _ b, GQ _ c => Qred a = (-7 # 9)%Q /\ Qred b = (-4 # 9)%Q /\ Qred c = (7 # 9)%Q
+  | _, _, _ => False
+  end.
+Proof. vm_compute. repeat split. Qed.
+
 Print Assumptions C08_callbacks_mirrored.
 Print Assumptions C08_callbacks_lclosed.
 Print Assumptions C08_callbacks_rquiet.
@@ -249,3 +369,14 @@ Print Assumptions C08_pipeline_no_validation_right_empty.
 Print Assumptions C08_pipeline_xcheck_keeps_left_disparity.
 Print Assumptions C08_pipeline_left_indep_of_right.
 Print Assumptions C08_pipeline_intervals_and_shapes.
+Print Assumptions C08_gen_prepare_wiring.
+Print Assumptions C08_gen_prepare_mono_is_model.
+Print Assumptions C08_gen_right_interval_negated.
+Print Assumptions C08_gen_prepare_single_is_model.
+Print Assumptions C08_gen_prepare_multi_is_model.
+Print Assumptions C08_gen_prepare_single_given_right.
+Print Assumptions C08_gen_interval_hypotheses.
+Print Assumptions C08_gen_prepare_single_mirror.
+Print Assumptions C08_gen_prepare_multi_mirror.
+Print Assumptions C08_gen_mirror_single_scale.
+Print Assumptions C08_gen_mirror_multi_scale.
